@@ -12,7 +12,7 @@ from xh_support import prepare_cattrs  # noqa: E402
 conv = prepare_cattrs("cl14.core.cattrs_converter")
 S = conv.structure_from_dict
 U = conv.unstructure_to_dict
-from cl14.models import Animal, Animal2, BarePet, CatV, Kit2, Pup2, Dog2, LegacyPet, Kit, MixedPet, NullablePet, Pup, Reading  # noqa: E402
+from cl14.models import Animal, Animal2, BarePet, Boxy, Round_, Shape2, CatV, Kit2, Pup2, Dog2, LegacyPet, Kit, MixedPet, NullablePet, Pup, Reading  # noqa: E402
 from cl14.models import (AllOpt, BankPay, Basic, Card, CardPay, CardRev, Full, Summary, Cat, Circle, Detailed, Dog, Holder, IntOrStr, ListOrBasic, OptA, OptB, Overlap, OverlapRev, Pay, Pet, Shape,  # noqa: E402
                          Square, StrOrBasic)
 
@@ -43,7 +43,7 @@ def _same(a, b):
 
 
 for _t, _d in [(Pay, {"method": "credit-card", "pan": "1"}), (Pay, {"method": "credit_card", "iban": "2"}), (Pet, {"kind": "cat", "name": "n", "lives": 1}), (Pet, {"kind": "dog", "name": "n", "barkVolume": 1}), (Shape, {"r": 1}), (Shape, {"side": 1}),
-               (Overlap, {"id": "a"}), (Overlap, {"id": "a", "extra": 1}), (OverlapRev, {"id": "a"}), (OverlapRev, {"id": "a", "extra": 1}), (NullablePet, {"kind": "dog", "name": "d"}), (LegacyPet, {"kind": "dog", "name": "d", "barkVolume": 1}), (LegacyPet, {"kind": "cat", "name": "c"}), (Animal2, {"species": "kitten", "name": "k"}), (Animal2, {"species": "dog", "name": "d"}), (Card, {"id": "a"}), (Card, {"id": "a", "displayName": "n", "isActive": True, "class": "c"}), (CardRev, {"id": "a", "class": "c"}), (CardRev, {"id": "a", "displayName": "n"}),
+               (Overlap, {"id": "a"}), (Overlap, {"id": "a", "extra": 1}), (OverlapRev, {"id": "a"}), (OverlapRev, {"id": "a", "extra": 1}), (NullablePet, {"kind": "dog", "name": "d"}), (LegacyPet, {"kind": "dog", "name": "d", "barkVolume": 1}), (LegacyPet, {"kind": "cat", "name": "c"}), (Animal2, {"species": "kitten", "name": "k"}), (Animal2, {"species": "dog", "name": "d"}), (Shape2, {"type": "round", "r": 1}), (Shape2, {"type": "boxy", "side": 2}), (Card, {"id": "a"}), (Card, {"id": "a", "displayName": "n", "isActive": True, "class": "c"}), (CardRev, {"id": "a", "class": "c"}), (CardRev, {"id": "a", "displayName": "n"}),
                (AllOpt, {"x": 1}), (AllOpt, {"y": 1}), (IntOrStr, 1), (IntOrStr, "s"), (StrOrBasic, "s"), (StrOrBasic, {"id": "a"}),
                (ListOrBasic, ["a"]), (ListOrBasic, {"id": "a"}), (Reading, {"code": 1, "flag": True, "opt": "s"}), (Reading, {"code": "s", "flag": 1}), (Reading, {"code": None, "flag": None}),
                (Animal, {"species": "cat", "name": "n"}), (Animal, {"species": "kitten", "name": "n"}), (Animal, {"species": "dog", "name": "n"}),
@@ -159,6 +159,32 @@ def tw_legacy_pet(mode: int, pk: int, name: str, has_extra: bool, n: int) -> boo
     post: _
     """
     S({"kind": KINDS[pk], "name": name}, LegacyPet)
+    return False
+
+
+def ob_undeclared_discriminator(mode: int, which: int, v: int) -> bool:
+    """
+    pre: 0 <= mode <= 1 and 0 <= which <= 1 and -5 <= v <= 5
+    post: _
+    """
+    # the variants do not declare `type`; the union's mapping alone decides
+    key = ["r", "side"][which]
+    if mode == 0:
+        x = S({"type": ["round", "boxy"][which], key: v}, Shape2)
+        return isinstance(x, [Round_, Boxy][which]) and getattr(x, key) == v
+    try:
+        S({"type": (["oval", "Round"] + FALSY)[(v + 5) % 6], key: v}, Shape2)
+    except (ValueError, TypeError):
+        return True
+    return False  # a value outside the mapping (also a falsy one) was decoded as something
+
+
+def tw_undeclared_discriminator(mode: int, which: int, v: int) -> bool:
+    """
+    pre: 0 <= mode <= 1 and 0 <= which <= 1 and -5 <= v <= 5
+    post: _
+    """
+    S({"type": ["round", "boxy"][which], ["r", "side"][which]: v}, Shape2)
     return False
 
 
